@@ -58,6 +58,10 @@ func c18Scenarios() []c18Scenario {
 		{"login_wrong_lock", mod("auth", "lock"), nil, Step{Kind: "login", B: 0, A: 0, Sec: &SecretRef{Kind: "literal", Lit: "Wr0ng-pass!"}}},
 		{"login_locks_account", func(c *Config) { c.ensureModules("auth", "lock"); c.LockAfter = 1 }, nil, Step{Kind: "login", B: 0, A: 0, Sec: &SecretRef{Kind: "literal", Lit: "Wr0ng-pass!"}}},
 		{"login_unknown", mod("auth"), nil, Step{Kind: "login", B: 0, A: -1, Sec: &SecretRef{Kind: "literal", Lit: "Wr0ng-pass!"}}},
+		// good credentials of an account the gates keep out: no failure may open the gate
+		{"login_locked_account", mod("auth", "lock"), []Step{{Kind: "op_lock", B: 0, A: 0}}, login(0, 0)},
+		{"otp_login_locked_account", mod("auth", "lock", "otp"), []Step{{Kind: "op_lock", B: 0, A: 0}}, Step{Kind: "otp_login", B: 0, A: 0, Sec: &SecretRef{Kind: "otp", A: 0, Idx: 0}}},
+		{"login_unconfirmed_account", mod("auth", "confirm"), nil, login(0, 3)},
 		{"login_totp_hijack", both(mod("auth"), set("totp")), nil, login(0, 1)},
 		{"login_sms_hijack", both(mod("auth"), set("sms")), nil, login(0, 2)},
 		{"login_get", mod("auth"), nil, Step{Kind: "login_get", B: 0}},
@@ -377,6 +381,18 @@ func c18Judge(w *World, sc string, base, f c18Side) []Violation {
 				out = append(out, viol("C18", "session_on_unconsumed_credential", sc, o,
 					fmt.Sprintf("fault %s at %s: the remember cookie logged %s in but its token was not consumed", kind, site, raw), "fault", site+":"+kind))
 			}
+		}
+	}
+	// R5: a failure opens nothing: a request the fault-free twin refused a
+	// session must not come away with one because a back-end call failed
+	if kind == "err" && o.IsHTTP && b.IsHTTP {
+		fu, fok := f.w.loginPut(o)
+		bu, bok := base.w.loginPut(b)
+		if fok && fu != "" && !(bok && bu != "") && o.uidBefore() == "" {
+			out = append(out, viol("C18", "session_only_under_fault", sc, o,
+				fmt.Sprintf("fault %s at %s: the request ended with a session for %s; without the fault it is refused (status %d loc %q)", kind, site, fu, b.Status, b.Location), "fault", site+":"+kind))
+		} else if !(bok && bu != "") {
+			w.Stats.Reach["c18_refused_with_and_without_fault"]++
 		}
 	}
 	// R4: nothing spent comes back
